@@ -363,7 +363,6 @@ func verifModel_utf8_RuneCountInString(s string) int {
 	return n
 }
 
-
 // IndexRune for ASCII-only s (every call site in soy passes a literal ASCII set): r matches only
 // as a single byte; utf8.RuneError and invalid runes cannot occur in an ASCII string.
 func verifModel_strings_IndexRune(s string, r rune) int {
@@ -376,4 +375,14 @@ func verifModel_strings_IndexRune(s string, r rune) int {
 		}
 	}
 	return -1
+}
+
+// sort.Strings as an insertion sort (same result: the sorted permutation is unique up to
+// equal elements, which are indistinguishable strings).
+func verifModel_sort_Strings(x []string) {
+	for i := 1; i < len(x); i++ {
+		for j := i; j > 0 && x[j] < x[j-1]; j-- {
+			x[j], x[j-1] = x[j-1], x[j]
+		}
+	}
 }
